@@ -356,6 +356,9 @@ def handle (c : Case) : Res := Id.run do
     match Struct.wfSC fac with
     | some msg => return Res.propFalse s!"structure: {msg}" tags
     | none => return Res.ok (n ≥ 2 ∧ fac.L.nsuper + 1 < n ∨ n ≥ 3) (tags ++ [if fac.L.nsuper + 1 < n then "multicol-snode" else "singletons"]) "exact"
+  -- C02's own clause "the returned row permutation is a bijection" does not need the factors
+  if prop == "C02" ∧ info = 0 ∧ !isPermArr permRi m then
+    return Res.propFalse "perm_r is not a permutation of 0..m-1" tags
   -- everything below needs a well-formed structure to read the factors
   if (Struct.wfSC fac).isSome then return Res.skip "structure not well-formed (reported under C03)"
   if !isPermArr permRi m then
